@@ -15,7 +15,7 @@ Open Scope bool_scope.
 (* The text this matcher was written from; [regex_text_current] in
    TimePatternProofs.v requires the generated REGEX_SPEC to be this string. *)
 Definition REGEX_SPEC_modelled : string :=
-  "(\*|\*\d|\d\*|\d\d?):(\d\d|\d\*|\*\d|\*)(?=(\s|$|#))".
+  "(\*|\*\d|\d\*|\d\d?):(\d\d|\d\*|\*\d|\*)(?=(\s|$|#|[\[\]{}()]))".
 
 Inductive pelem := PStar | PDigit.
 
@@ -57,7 +57,9 @@ Definition minute_alts : list (list pelem) :=
 Definition lookahead_ok (rest : string) : bool :=
   match rest with
   | EmptyString => true
-  | String c _ => re_is_space c || Ascii.eqb c "#"%char
+  | String c _ => re_is_space c || Ascii.eqb c "#"%char ||
+                  (* a bracket, brace or parenthesis may follow directly (D65) *)
+                  Ascii.eqb c "["%char || Ascii.eqb c "]"%char || Ascii.eqb c "{"%char || Ascii.eqb c "}"%char || Ascii.eqb c "("%char || Ascii.eqb c ")"%char
   end.
 
 Fixpoint first_some {A B} (f : A -> option B) (l : list A) : option B :=
